@@ -95,7 +95,36 @@ def family_free(f, docs=1, width=3, depth=2, pool=2):
         out.append([root])
     return out
 
-FAMILIES = {'one_level': family_one_level, 'root_level': family_root_level, 'free': family_free}
+# ---------------------------------------------------------------------------------------------- trees with symbolic names for C14 / C04
+def family_names(f, shape='chain', names=('a', 'b'), anames=None, docs=1):
+    """skeletons whose *names* are the subject: every element name symbolic over `names`.
+       shape 'two_parents': r > (N1 > N3, N2 > N4), N5 ; 'deep': r > N1 > N2 > N3 and r > N4 ; 'wide': r > N1, N2, N3 (each with one optional attribute)"""
+    out = []
+    for d in range(docs):
+        t = 'd%d_' % d
+        def el(lab, kids=(), attrs=0, present=True, text=False):
+            n = Node(f.S(t + lab + '_n', list(names)), present=present, empty=False, attrs=f.attrs(t + lab, attrs, list(anames or names)), label=t + lab)
+            n.content = list(kids)
+            if text: n.content.append(Text(True, False, 't', t + lab + '_t'))
+            return n
+        root = Node('r', label=t + 'r', empty=False)
+        if shape == 'two_parents':
+            root.content = [el('n1', [el('n3')], attrs=1), el('n2', [el('n4')]), el('n5')]
+        elif shape == 'deep':
+            root.content = [el('n1', [el('n2', [el('n3', attrs=1)])]), el('n4')]
+        elif shape == 'wide':
+            root.content = [el('n1', attrs=1), el('n2'), el('n3', text=True)]
+        elif shape == 'self_nested':
+            root.content = [el('n1', [el('n2', [el('n3')])])]
+        elif shape == 'attrs':
+            root.content = [el('n1', [el('n2')], attrs=2, text=True)]
+        elif shape == 'pair':
+            root.content = [el('n1', attrs=1), el('n2', text=True)]
+        out.append([root])
+    return out
+
+
+FAMILIES = {'one_level': family_one_level, 'root_level': family_root_level, 'free': family_free, 'names': family_names}
 
 def rsym_from_tree(t):
     """canonical tree dict (native) -> rsym Element value"""
